@@ -26,6 +26,7 @@ TIERS = {
 
 REPLAY_RTOL = 2e-4
 REPLAY_ATOL = 2e-5
+ROOT = os.path.dirname(os.path.dirname(os.path.abspath(__file__)))
 NICE_MARGIN = Fraction(1, 50)
 
 
@@ -377,6 +378,108 @@ class Ctx:
             break
         self.results.append(res)
 
+
+    # ------------------------------------------------------------------ float32 re-interpretation of internal assertions
+    def fp_asserts(self, site: str, what: str, timeout_s: float = 60.0):
+        """Obligation: an `assert allclose(...)` of the code under test (at a source location containing `site`) cannot
+        fail because of float32 rounding. The tolerance test recorded on this path (built in RAW mode, i.e. without
+        re-association) is re-interpreted over IEEE binary32 (z3 QF_FP, round-nearest-even) and the solver is asked for
+        admissible float32 inputs that falsify it. A model is replayed on the real code in float32; only a reproduced
+        AssertionError is reported. `unknown` / timeout is inconclusive; `unsat` holds for the element-wise operation order
+        assumed by the translation (stated in evidence)."""
+        i = self._next(what)
+        if self.mode == "replay":
+            return
+        import z3
+
+        entries = [e for e in self.eng.pc if e.kind == "branch" and e.outcome and site in e.where]
+        res = dict(index=i, what=what, elements=len(entries), distinct=len(entries), nontrivial=len(entries), queries=0, status="proved", fp=True)
+        if not entries:
+            res["status"] = "inconclusive"
+            res["why"] = f"no assertion recorded at {site}"
+            self.results.append(res)
+            return
+        names: Dict[str, object] = {}
+        t0 = time.time()
+        for e in entries:
+            try:
+                (goal,), _ = tm.to_z3_fp([e.term], names)
+                pres, _ = tm.to_z3_fp(list(self.pre) + self.nice, names)
+            except NotImplementedError as ex:
+                res["status"] = "inconclusive"
+                res["why"] = str(ex)
+                break
+            s = z3.SolverFor("QF_FP")
+            s.set("timeout", int(timeout_s * 1000))
+            for p in pres:
+                s.add(p)
+            for v in names.values():
+                s.add(z3.Not(z3.fpIsNaN(v)), z3.Not(z3.fpIsInf(v)))
+            s.add(z3.Not(goal))
+            s.set("timeout", int(min(timeout_s, 30.0) * 1000))
+            smt2_text = "(set-logic QF_FP)\n" + s.to_smt2()  # taken before check(): afterwards z3 prints its bit-blasted form
+            r = s.check()
+            res["queries"] += 1
+            self.stats.queries += 1
+            if str(r) == "unknown":
+                # second back end: the cvc5 binary on the same SMT-LIB text (decides float32 `unsat` goals z3 does not finish)
+                r = self._cvc5_fp(smt2_text, timeout_s)
+                res["cvc5"] = str(r)
+                self.stats.cvc5_queries += 1
+            self.stats.time += time.time() - t0
+            if str(r) == "unsat":
+                self.stats.unsat += 1
+                continue
+            if str(r) == "sat" and res.get("cvc5") == "sat":
+                res["status"] = "inconclusive"
+                res["why"] = f"cvc5 reports sat on the float32 assertion at {e.where} but no model was extracted (z3 undecided)"
+                break
+            if str(r) == "sat":
+                self.stats.sat += 1
+                m = s.model()
+                model = dict(self.eng.envq)
+                for n_, v in names.items():
+                    val = m.eval(v, model_completion=True)
+                    q = z3.simplify(z3.fpToReal(val))
+                    model[n_] = Fraction(q.numerator_as_long(), q.denominator_as_long())
+                res["status"] = "violated"
+                res["why"] = f"float32 rounding falsifies the assertion at {e.where}: {tm.show(e.term, 200)}"
+                c = Candidate(i, "no exception", "crash", model, f"AssertionError at {e.where} (float32)")
+                c.expect_exc = "AssertionError"
+                self.candidates.append(c)
+                break
+            self.stats.unknown += 1
+            res["status"] = "inconclusive"
+            res["why"] = f"solver {r} (QF_FP, {timeout_s:.0f} s) on the float32 assertion at {e.where}"
+            break
+        self.results.append(res)
+
+    def _cvc5_fp(self, smt2: str, timeout_s: float) -> str:
+        import shutil
+        import subprocess
+        import tempfile
+
+        exe = shutil.which("cvc5")
+        if exe is None:
+            return "unknown"
+        os.makedirs(os.path.join(ROOT, "work"), exist_ok=True)
+        with tempfile.NamedTemporaryFile("w", suffix=".smt2", dir=os.path.join(ROOT, "work"), delete=False) as f:
+            f.write(smt2)
+            path = f.name
+        try:
+            p = subprocess.run([exe, f"--tlimit={int(timeout_s * 1000)}", path], capture_output=True, text=True, timeout=timeout_s + 15)
+            out = (p.stdout or "") + (p.stderr or "")
+            if "(error" in out:
+                return "unknown"
+            first = (p.stdout or "").strip().splitlines()[:1]
+            return first[0] if first and first[0] in ("sat", "unsat") else "unknown"
+        except Exception:
+            return "unknown"
+        finally:
+            try:
+                os.unlink(path)
+            except OSError:
+                pass
 
     # ------------------------------------------------------------------ gradients (C20)
     def grad(self, f, xs, what: str = "", twice: bool = False):
@@ -748,7 +851,8 @@ def _run_path(fn, params, tier, seed, name, override, path_no, extra_pre=()):
         rep = replay(fn, params, tier, seed, c.model, (c.index, c.what) if c.kind != "crash" else None, kind=c.kind)
         sig = f"{name}|{c.what}|{c.kind}|{c.detail}"
         if c.kind == "crash":
-            reproduced = rep.get("crash") is not None and rep["crash"]["exc"] == crash["exc"]
+            expect = getattr(c, "expect_exc", None) or (crash or {}).get("exc")
+            reproduced = rep.get("crash") is not None and rep["crash"]["exc"] == expect
             observed = rep.get("crash")
         else:
             same = [f for f in rep["failures"] if f["index"] == c.index or f["what"] == c.what]
